@@ -51,10 +51,38 @@ theorem no_stranded_no_leak (s : State) (h : Reachable s) (hf : Final s = true) 
     s.closed.Perm (created s) :=
   Proofs.Handover.no_stranded_no_leak s h hf hp
 
+/-- C19 (Register/Enroll deliver exactly one result per accepted call): never more than one, and only for accepted calls -/
+theorem results_at_most_once (s : State) (h : Reachable s) :
+    s.results.Nodup ∧ (∀ fd ∈ s.results, fd ∈ s.enrolled) ∧ s.enrolled.Nodup :=
+  Proofs.Handover.results_at_most_once s h
+
+/-- C19, the finding characterised: an accepted call is still without its result exactly when its registration is
+waiting in a queue; once everything has stopped these are the registrations stranded in the queue of a loop that left
+Polling - their callers wait forever -/
+theorem unanswered_are_pending (s : State) (h : Reachable s) :
+    ∀ fd, fd ∈ unanswered s ↔ (fd ∈ s.enrolled ∧ fd ∈ pending s) :=
+  Proofs.Handover.unanswered_are_pending s h
+
+/-- C19, the finding itself (known finding `register-races-with-shutdown`): a Register call accepted while the
+engine is shutting down (the flag is only set at the very end) is never answered -/
+theorem register_unanswered_reachable :
+    let s := run (init 1) [.requestStop, .postSentinels, .exec 0, .enroll 0, .acceptorExit, .setFlag]
+    Final s = true ∧ s.inShutdown = true ∧ unanswered s = [0] :=
+  Proofs.Handover.register_unanswered_reachable
+
+/-- after the flag is set no call is accepted any more: the set of accepted calls is final -/
+theorem no_enrolment_after_flag (s : State) (hs : s.inShutdown = true) (l : Nat) : step s (.enroll l) = s :=
+  Proofs.Handover.no_enrolment_after_flag s hs l
+
 -- non-vacuity: a run in which connections are handed over, served, closed by peers and by shutdown
 example :
     let s := run (init 2) [.accept 0, .accept 1, .exec 0, .exec 1, .peerClose 0 0, .accept 1, .exec 1,
                            .requestStop, .postSentinels, .acceptorExit, .exec 0, .exec 1]
     Final s = true ∧ pending s = [] ∧ s.closed = [0, 1, 2] ∧ s.opened = [(0, 0), (1, 1), (2, 1)] := by decide
+
+-- non-vacuity: an enrolment that is answered
+example :
+    let s := run (init 1) [.enroll 0, .exec 0, .requestStop, .postSentinels, .acceptorExit, .exec 0, .setFlag]
+    Final s = true ∧ s.results = [0] ∧ unanswered s = [] ∧ s.closed = [0] := by decide
 
 end Gnet.Props.Handover
